@@ -184,10 +184,12 @@ def mutation_findings(o, strict=True, db=None):
         if e["kind"] == "inplace" and e["root"] is not None:
             out.append(("inplace", "%s of %s (storage of %s)" % (e["how"], e["target"], show(e["root"], 40)), e))
         elif e["kind"] == "attr_store" and not e["in_init"]:
-            if not strict and e.get("empty"):
+            if e.get("empty"):
                 continue  # creation of an empty memo table: judged by what is stored in it
             out.append(("attr-store", "self.%s re-bound" % e["attr"], e))
-        elif e["kind"] == "dict_store" and not e["in_init"] and not strict:
+        elif e["kind"] == "dict_store" and not e["in_init"] and (not strict or (e["obj"].cls.qualname, e["attr"]) not in TABLED_CACHES):
+            # a per-object memo is unobservable - and accepted - when its key determines the stored value and nothing the value depends on
+            # is re-bound later; otherwise it makes results depend on the call history
             miss = memo_unsound(e)
             stale = memo_stale(db, e) if db is not None else []
             if stale and not miss:
@@ -196,8 +198,6 @@ def mutation_findings(o, strict=True, db=None):
             if miss:
                 out.append(("memo-key", "memo self.%s: the value stored under key %s depends on %s, which the key does not determine (a later call with another %s gets this entry)"
                             % (e["attr"], show(e["key"], 60), ", ".join(show(a, 30) for a in miss[:3]), show(miss[0], 30)), e))
-        elif e["kind"] == "dict_store" and not e["in_init"] and (e["obj"].cls.qualname, e["attr"]) not in TABLED_CACHES:
-            out.append(("state-store", "entry stored into dict attribute self.%s (hidden per-object state)" % e["attr"], e))
         elif e["kind"] == "raw_arith":
             out.append(("raw-dtype-arithmetic", "%s on values that still have the caller's score dtype (%s): for unsigned-integer scores the result wraps around instead of going negative"
                         % (e["op"], e.get("text", "")[:60]), e))
